@@ -142,7 +142,8 @@ class Translator(object):
     # ---- main entry
     def function(self, qualname, consts=None, capture=None, free_on_call=(), inline=(),
                  name=None, param_order=None, drop_params=(), callees=None, list_params=(),
-                 skip_shape_returns=False):
+                 skip_shape_returns=False, dict_list_params=None, tuple_params=None, test_overrides=None,
+                 vararg_len=None):
         """consts: parameter/global name -> python constant (partial evaluation).
         capture: None (the return value) | ('assign', var, k[, unwrap_fn]) the k-th real-valued
         assignment to var (optionally unwrapping a call to unwrap_fn, e.g. 'ln')."""
@@ -151,6 +152,15 @@ class Translator(object):
         st.callees = dict(callees or {})
         st.list_params = set(list_params)
         st.skip_shape_returns = skip_shape_returns
+        st.test_overrides = dict(test_overrides or {})
+        for dname, keys in (dict_list_params or {}).items():
+            for k in keys:
+                lp = '%s_%s' % (dname, k)
+                st.list_params.add(lp)
+                st.used.add(lp)
+                st.used.add(lp + '_elt')
+                st.env['%s[%s]' % (dname, k)] = ('var', lp + '_elt')
+                st.dict_lists.append(lp)
         params = []
         defaults = dict()
         a = fn.args
@@ -162,6 +172,13 @@ class Translator(object):
                 continue
             if consts and nm in consts:
                 st.env[nm] = _const_ir(consts[nm])
+            elif tuple_params and nm in tuple_params:
+                comps = []
+                for i in range(tuple_params[nm]):
+                    v = st.fresh('%s_%d' % (nm, i))
+                    params.append(v)
+                    comps.append(('var', v))
+                st.env[nm] = ('tuple', comps)
             elif nm in st.list_params:
                 st.used.add(nm)
                 st.used.add(nm + '_elt')
@@ -171,6 +188,16 @@ class Translator(object):
                 v = st.fresh(nm)
                 params.append(v)
                 st.env[nm] = ('var', v)
+        if a.vararg is not None:
+            if vararg_len is None:
+                raise Untranslatable('*%s needs a length' % a.vararg.arg, fn)
+            comps = []
+            for i in range(vararg_len):
+                v = st.fresh('%s_%d' % (a.vararg.arg, i))
+                params.append(v)
+                comps.append(('var', v))
+            st.env[a.vararg.arg] = ('tuple', comps)
+        params += [lp for lp in st.dict_lists]
         try:
             res = st.block(fn.body, st.env)
             if capture is not None:
@@ -223,6 +250,8 @@ class _State(object):
         self.callees = {}
         self.list_params = set()
         self.skip_shape_returns = False
+        self.test_overrides = {}
+        self.dict_lists = []
         self.consts = consts
         self.env = {}
         self.lets = []
@@ -270,6 +299,12 @@ class _State(object):
                 nm = _dotted(s.value.func)
                 if nm in SKIP_CALLS:
                     return None
+                f = s.value.func
+                if isinstance(f, ast.Attribute) and f.attr == 'append' and isinstance(f.value, ast.Name) \
+                        and env.get(f.value.id, ('x',))[0] == 'tuple' and len(s.value.args) == 1:
+                    cur = env[f.value.id]
+                    env[f.value.id] = ('tuple', list(cur[1]) + [self.bind(f.value.id, self.expr(s.value.args[0], env))])
+                    return None
                 if isinstance(s.value.func, ast.Attribute) and s.value.func.attr in ('replace',):
                     return None  # discarded string op (phase.replace(...) with result unused)
             raise Untranslatable('expression statement', s)
@@ -295,6 +330,16 @@ class _State(object):
             return None
         if isinstance(s, ast.If):
             return self.if_stmt(s, env, rest)
+        if isinstance(s, ast.For):
+            it = self.expr(s.iter, env)
+            if it[0] != 'tuple' or s.orelse:
+                raise Untranslatable('for loop over a value of unknown length', s)
+            for item in it[1]:
+                self.bind_target(s.target, item, env, s)
+                r = self.block(s.body, env)
+                if r is not None:
+                    raise Untranslatable('return inside a loop', s)
+            return None
         if isinstance(s, ast.While):
             if self.shape_only_test(s.test) and self.shape_only_body(s.body, env):
                 self.stats['shape_branches_skipped'] += 1
@@ -314,6 +359,16 @@ class _State(object):
         if isinstance(s, ast.Raise):
             raise Untranslatable('reachable raise', s)
         raise Untranslatable('statement %s' % type(s).__name__, s)
+
+    def bind_target(self, target, value, env, s):
+        if isinstance(target, ast.Name):
+            env[target.id] = value if value[0] == 'tuple' else self.bind(target.id, value)
+            return
+        if isinstance(target, ast.Tuple) and value[0] == 'tuple' and len(value[1]) == len(target.elts):
+            for t, v in zip(target.elts, value[1]):
+                self.bind_target(t, v, env, s)
+            return
+        raise Untranslatable('loop/unpacking target', s)
 
     def block_result(self, stmts, env):
         r = self.block(stmts, env)
@@ -352,10 +407,28 @@ class _State(object):
                 env[target.id] = ('var', v)
                 return
             val = self.expr(value, env)
-            if val[0] != 'const':
+            if val[0] == 'tuple':
+                env[target.id] = ('tuple', [v if v[0] == 'tuple' else self.bind(target.id, v) for v in val[1]])
+                return
+            if val[0] not in ('const', 'inf'):
                 self.count_assign(target.id, val)
-            env[target.id] = self.bind(target.id, val)
+            env[target.id] = self.bind(target.id, val) if val[0] != 'inf' else val
             return
+        if isinstance(target, ast.Tuple) and not isinstance(value, ast.Tuple):
+            val = self.expr(value, env)
+            if val[0] == 'tuple' and len(val[1]) == len(target.elts):
+                self.bind_target(target, val, env, s)
+                return
+            raise Untranslatable('unpacking of a non-tuple value', s)
+        if isinstance(target, ast.Subscript) and isinstance(target.value, ast.Name) and \
+                env.get(target.value.id, ('x',))[0] == 'tuple':
+            idx = self.expr(target.slice, env)
+            if idx[0] == 'num' and idx[1].denominator == 1:
+                cur = list(env[target.value.id][1])
+                cur[int(idx[1])] = self.bind(target.value.id, self.expr(value, env))
+                env[target.value.id] = ('tuple', cur)
+                return
+            raise Untranslatable('list item assignment with a non-constant index', s)
         if isinstance(target, ast.Tuple) and isinstance(value, ast.Tuple) and len(target.elts) == len(value.elts):
             vals = [self.expr(v, env) for v in value.elts]
             for t, v in zip(target.elts, vals):
@@ -387,6 +460,10 @@ class _State(object):
         if all(isinstance(b, ast.Raise) for b in s.body) and not s.orelse:
             self.stats['guards_skipped'] += 1
             return None
+        key = ast.unparse(s.test)
+        if key in self.test_overrides:
+            self.stats['tests_decided_by_spec'] = self.stats.get('tests_decided_by_spec', 0) + 1
+            return self.block_result(s.body if self.test_overrides[key] else s.orelse, env)
         if self.shape_query(s.test):
             # `if np.prod(x.shape):` / `if np.ndim(s):` -- non-empty input / array-valued shift: body taken
             self.stats['shape_conditions_assumed_true'] = self.stats.get('shape_conditions_assumed_true', 0) + 1
@@ -419,6 +496,11 @@ class _State(object):
             a, b = env_t.get(k), env_e.get(k)
             if a == b:
                 env[k] = a
+            elif a is not None and b is not None and (a[0] == 'tuple' or b[0] == 'tuple'):
+                if a[0] == b[0] == 'tuple' and len(a[1]) == len(b[1]):
+                    env[k] = ('tuple', [x if x == y else self.bind(k, ('if', c, x, y)) for x, y in zip(a[1], b[1])])
+                else:
+                    env.pop(k, None)
             elif a is None or b is None:
                 env.pop(k, None)  # defined on one side only: unusable afterwards
             else:
@@ -486,6 +568,16 @@ class _State(object):
                 if isinstance(t, ast.Subscript) and isinstance(t.slice, ast.Call) and _dotted(t.slice.func) == 'np.isnan':
                     self.stats['nan_sanitise_skipped'] += 1
                     continue
+                if isinstance(t, ast.Subscript) and isinstance(t.slice, ast.Constant) and isinstance(t.slice.value, str):
+                    try:
+                        n_before = len(self.lets)
+                        v = self.expr(b.value, dict(env))
+                        old = self.expr(t, dict(env))
+                        del self.lets[n_before:]
+                    except Untranslatable:
+                        return False
+                    if v == old:
+                        continue
                 return False
             if isinstance(b, (ast.While, ast.If)) and self.shape_only_test(b.test):
                 if self.shape_only_body(b.body, env) and self.shape_only_body(b.orelse, env):
@@ -594,7 +686,7 @@ class _State(object):
                 return ('pi',)
             if d in ('np.inf', 'numpy.inf', 'math.inf'):
                 return ('inf', 1)
-            if n.attr == 'T':
+            if n.attr in ('T', '_ln_pdf'):
                 self.stats['shape_ops'] += 1
                 return self.expr(n.value, env)
             if d is not None and d.startswith('self.') and d in self.consts:
@@ -654,14 +746,38 @@ class _State(object):
                     self.extra_params.append(v)
                     env[key] = ('var', v)
                 return env[key]
-            if isinstance(n.slice, ast.Constant) and isinstance(n.slice.value, int):
-                b = self.expr(base, env)
-                if b[0] == 'tuple':
-                    return b[1][n.slice.value]
+            b = self.expr(base, env)
+            if isinstance(n.slice, ast.Tuple):
+                idxs = [self.index_value(x, env) for x in n.slice.elts]
+                if b[0] == 'tuple' and all(isinstance(i, int) for i in idxs):
+                    v = b
+                    for i in idxs:
+                        # a column vector indexed [i, 0]: the trailing 0 is a shape artefact
+                        if v[0] != 'tuple':
+                            if i == 0:
+                                continue
+                            raise Untranslatable('index into a scalar', n)
+                        v = v[1][i]
+                    return v
+                raise Untranslatable('subscript', n)
+            i = self.index_value(n.slice, env)
+            if isinstance(i, int) and b[0] == 'tuple':
+                return b[1][i]
+            if i is True:
+                self.stats['masked_reads_of_all'] = self.stats.get('masked_reads_of_all', 0) + 1
+                return b     # x[mask] with a mask that is statically all-true (finite-entry model)
             raise Untranslatable('subscript', n)
         if isinstance(n, ast.Call):
             return self.call(n, env)
         raise Untranslatable('expression %s' % type(n).__name__, n)
+
+    def index_value(self, node, env):
+        v = self.expr(node, env)
+        if v[0] == 'num' and v[1].denominator == 1:
+            return int(v[1])
+        if v[0] == 'const' and v[1] is True:
+            return True
+        return None
 
     def call(self, n, env):
         d = _dotted(n.func)
@@ -682,6 +798,16 @@ class _State(object):
                 raise Untranslatable('string method on data', n)
             if meth == 'max' and not args and isinstance(recv, ast.Name) and recv.id in self.list_params:
                 return ('lmax', recv.id)
+            if meth in ('exp', 'sum', 'max') and not args and self.list_params and not (d or '').startswith('np.'):
+                body = self.expr(recv, env)
+                ls = [v[:-4] for v in ir.free_vars(body, []) if v.endswith('_elt') and v[:-4] in self.list_params]
+                if meth == 'exp':
+                    return ('call', 'exp', [body])
+                if len(ls) == 1 and meth == 'sum':
+                    return ('lsum', ls[0], body)
+                if len(ls) == 1 and meth == 'max' and body == ('var', ls[0] + '_elt'):
+                    return ('lmax', ls[0])
+                raise Untranslatable('reduction method on a non-elementwise value', n)
             if meth in SHAPE_METHODS and (d is None or not d.startswith('np.')):
                 self.stats['shape_ops'] += 1
                 return self.expr(recv, env)
@@ -746,6 +872,31 @@ class _State(object):
             return self.expr(args[0], env)
         if d in ('abs',) and len(args) == 1:
             return ('call', 'abs', [self.expr(args[0], env)])
+        if d in ('min', 'max') and len(args) == 1 and isinstance(args[0], (ast.List, ast.Tuple)) and len(args[0].elts) == 2:
+            a0, a1 = [self.expr(x, env) for x in args[0].elts]
+            if a0[0] == 'inf' and ((d == 'max' and a0[1] < 0) or (d == 'min' and a0[1] > 0)):
+                return a1    # max([-inf, x]) = x
+            if a0[0] == 'inf' or a1[0] == 'inf':
+                raise Untranslatable('infinity in min/max', n)
+            return ('call', d, [a0, a1])
+        if d in ('tuple', 'list') and len(args) == 1:
+            v = self.expr(args[0], env)
+            if v[0] == 'tuple':
+                return v
+            raise Untranslatable('tuple() of a non-list', n)
+        if d == 'enumerate' and len(args) == 1:
+            v = self.expr(args[0], env)
+            if v[0] == 'tuple':
+                return ('tuple', [('tuple', [('num', Fraction(i)), x]) for i, x in enumerate(v[1])])
+            raise Untranslatable('enumerate of a non-list', n)
+        if d == 'range' and len(args) == 1:
+            v = self.expr(args[0], env)
+            if v[0] == 'num' and v[1].denominator == 1:
+                return ('tuple', [('num', Fraction(i)) for i in range(int(v[1]))])
+            raise Untranslatable('range of a non-constant', n)
+        if d == 'LnPDF' and len(args) == 1:
+            self.stats['shape_ops'] += 1
+            return self.expr(args[0], env)
         if d in ('min', 'max') and len(args) == 2 and not n.keywords:
             return ('call', d, [self.expr(args[0], env), self.expr(args[1], env)])
         if d == 'gaussian_cdf' and len(args) == 3:
